@@ -328,6 +328,48 @@ def r07_2(ctx, counts) -> RuleResult:
     return res
 
 
+def class_dispatch(loop: ast.For) -> Optional[tuple[ast.stmt, ast.Match]]:
+    """The class dispatch on the first loop target inside a loop body, as (statement, Match):
+    a `match op1:` of class patterns, or the equivalent if/elif chain of
+    `isinstance(op1, C)` tests, which is rebuilt as a synthetic Match (same case bodies)."""
+    if not isinstance(loop.target, ast.Tuple) or not loop.target.elts \
+            or not isinstance(loop.target.elts[0], ast.Name):
+        return None
+    subj = loop.target.elts[0].id
+    for st in loop.body:
+        if isinstance(st, ast.Match) and stmt_text(st.subject) == subj:
+            return st, st
+        if isinstance(st, ast.If):
+            cases = []
+            cur: Optional[ast.stmt] = st
+            ok = True
+            while isinstance(cur, ast.If):
+                t = cur.test
+                if not (isinstance(t, ast.Call) and dotted(t.func) == 'isinstance'
+                        and len(t.args) == 2 and stmt_text(t.args[0]) == subj):
+                    ok = False
+                    break
+                k = t.args[1]
+                pats = [ast.MatchClass(cls=e, patterns=[], kwd_attrs=[], kwd_patterns=[])
+                        for e in (k.elts if isinstance(k, ast.Tuple) else [k])]
+                pat = pats[0] if len(pats) == 1 else ast.MatchOr(patterns=pats)
+                cases.append(ast.match_case(pattern=pat, guard=None, body=cur.body))
+                if len(cur.orelse) == 1 and isinstance(cur.orelse[0], ast.If):
+                    cur = cur.orelse[0]
+                else:
+                    if cur.orelse:
+                        cases.append(ast.match_case(pattern=ast.MatchAs(pattern=None, name=None),
+                                                    guard=None, body=cur.orelse))
+                    cur = None
+            if ok and len(cases) >= 3:
+                m = ast.Match(subject=ast.Name(id=subj, ctx=ast.Load()), cases=cases)
+                ast.copy_location(m, st)
+                ast.fix_missing_locations(m)
+                return st, m
+    return None
+
+
+
 def r07_3(ctx, counts) -> RuleResult:
     """general comparison: every yielded operand pair passed the type dispatch"""
     from ..engine.cfg import CFG
@@ -343,13 +385,15 @@ def r07_3(ctx, counts) -> RuleResult:
     found = 0
     for f in tok.methods.values():
         for loop in [n for n in walk_local(f.node) if isinstance(n, ast.For)]:
-            matches = [s for s in loop.body if isinstance(s, ast.Match)]
-            if not matches or 'product' not in stmt_text(loop.iter):
+            disp = class_dispatch(loop)
+            if disp is None or 'product' not in stmt_text(loop.iter):
                 continue
+            matches = [disp[0]]
             found += 1
             cfg = CFG(f.node)
             head = [nd for nd in cfg.nodes if nd.ast is loop and nd.kind == 'for']
-            mnodes = [nd for nd in cfg.nodes if nd.ast in matches]
+            mnodes = [nd for nd in cfg.nodes if nd.ast in matches or any(
+                isinstance(m_, ast.If) and nd.ast is m_.test for m_ in matches)]
             if not head or not mnodes:
                 raise AnalysisError(f'{f.key}: loop/match not located in the CFG')
             ys = [nd for nd in cfg.nodes if nd.ast is not None and nd.kind == 'stmt' and any(
@@ -390,9 +434,9 @@ def r07_4(ctx, counts) -> RuleResult:
     target = None
     for f in tok.methods.values():
         for loop in [n for n in walk_local(f.node) if isinstance(n, ast.For)]:
-            ms = [st for st in loop.body if isinstance(st, ast.Match)]
-            if ms and 'product' in stmt_text(loop.iter) and isinstance(loop.target, ast.Tuple):
-                target = (f, loop, ms[0])
+            disp = class_dispatch(loop)
+            if disp is not None and 'product' in stmt_text(loop.iter):
+                target = (f, loop, disp[1])
     if target is None:
         raise AnalysisError('operand-pair generator with a match dispatch not located')
     f, loop, m = target
@@ -572,10 +616,11 @@ def r07_6(ctx, counts) -> RuleResult:
     f = model.find_class('XPathToken').methods.get('iter_comparison_data')
     if f is None:
         raise AnalysisError('XPathToken.iter_comparison_data vanished')
-    matches = [x for x in walk_local(f.node) if isinstance(x, ast.Match)]
+    matches = [d[1] for lp in walk_local(f.node) if isinstance(lp, ast.For)
+               for d in [class_dispatch(lp)] if d is not None]
     if len(matches) != 1:
-        raise AnalysisError(f'iter_comparison_data: {len(matches)} match statements (the class '
-                            f'dispatch idiom changed)')
+        raise AnalysisError(f'iter_comparison_data: {len(matches)} class dispatches on the first '
+                            f'operand (the dispatch idiom changed)')
     cases: dict[str, ast.match_case] = {}
     for c in matches[0].cases:
         pats = c.pattern.patterns if isinstance(c.pattern, ast.MatchOr) else [c.pattern]
